@@ -23,6 +23,14 @@ Streams:
                   functors / boxes alone, against the model asked with the CURRENT data and the oracle on it;
                   tensor diagrams with bubbles, rigid diagrams under one Functor object, circuits of custom
                   gates, rotations with ndarray phases (float, oracle only).
+* `dtype-eval`    (tdtypelib) diagrams with daggered generators whose arrays are object-dtype (sympy numbers, mixed
+                  Python numbers, symbols substituted afterwards), int/uint/float/complex/bool ndarrays, mixed lists;
+                  oracle `dtypes:*` (layer composite, adjoint of daggered boxes), model `feval` where integral;
+* `sum-eval`      formal sums with 0-3 terms: F(sum) is a Tensor of the image types (oracle `sum_typed:*`, also
+                  sum >> sum, sum @ sum, diagram >> empty sum, bubbles around sums, Sum.eval) and equals the model's
+                  Sum branch `fsum` (TFunctor.callSum);
+* `bare-box`, `bare-box-one-box-diagram`   functor(box) / box.eval() on bare box objects of every class vs the
+                  defining tensor, the one-box diagram, the model's `fbox` and `feval` of the one-box diagram;
 * float stream    the same generator with real float arrays and relu / sigmoid / tanh / ...:
                   outside the model, oracle only (independent numpy-kron layer composite,
                   functions re-implemented with `math`), tolerance `tbubblelib.FLOAT_RTOL`.
@@ -40,6 +48,7 @@ from core import tok_expr  # noqa: E402
 import tensorlib as tl  # noqa: E402
 import tbubblelib as bl  # noqa: E402
 import thistlib as th  # noqa: E402
+import tdtypelib as dt  # noqa: E402
 from tensorlib import eff, size, exact_eq  # noqa: E402
 
 PROP = "C09"
@@ -229,14 +238,14 @@ def new_arrays(rng, case, rename):
     _, dom, cod, boxes, offsets = case.e
     nboxes = []
     for b in boxes:
-        if b["kind"] == "g":
+        if b["kind"] == "g" and tl.box_key(tl.undagger(b)) in ren:     # (spiders keep their name)
             ub = ren[tl.box_key(tl.undagger(b))]
             b = dict(b, name=ub["name"])
         nboxes.append(b)
     return ("mk", dom, cod, nboxes, offsets), ars2
 
 
-def oracle(rep, rng, case, desc, real_value, real_answer):
+def oracle(rep, rng, case, desc, real_value, real_answer, extra=None):
     from discopy import monoidal, tensor
     from discopy.rewriting import InterchangerError
     orc = Oracle(rep, case, desc)
@@ -385,6 +394,80 @@ def oracle(rep, rng, case, desc, real_value, real_answer):
         rep.count("oracle.skipped:inexact")
     except Exception as exc:
         orc.fail("bubble_pair:raises", "%r" % (exc,))
+    if extra is None:
+        return
+    # (g) the functor / eval applied to bare box OBJECTS; (h) formal sums with 0..3 terms, typed
+    rng2, reqs, answers, plan, sum_answer = extra
+    try:
+        dt.bare_box_checks(rep, case, desc, d, F, reqs, answers)
+    except tl.Inexact:
+        rep.count("oracle.skipped:inexact")
+    except Exception as exc:
+        orc.fail("bare_box:raises", "%r" % (exc,))
+    try:
+        dt.sum_checks(rep, rng2, case, desc, sum_variants(plan), plan["n"], plan["line"], sum_answer)
+    except tl.Inexact:
+        rep.count("oracle.skipped:inexact")
+    except Exception as exc:
+        orc.fail("sum_typed:raises", "%r" % (exc,))
+
+
+def sum_variant_cases(rng, case):
+    """The case and two copies with fresh arrays and renamed boxes (specs only), and the case whose
+    functor interprets them all."""
+    fam = case.family
+    cs, cur = [case], case
+    for _ in range(2):
+        e2, ars2 = new_arrays(rng, cur, rename=True)
+        cur = tl.FCase(fam, e2, case.ob, ars2, case.ob_style, case.ar_style)
+        cs.append(cur)
+    allars = list(case.ars) + [x for c in cs[1:] for x in c.ars if not isinstance(x[1], tuple)]
+    return cs, tl.FCase(fam, case.e, case.ob, allars, case.ob_style, case.ar_style)
+
+
+def sum_plan(rng, case):
+    """What the sum stream does with this case, decided before the driver is asked: the variants, the
+    number of terms, and the model request `fsum` (TFunctor.callSum) for the sum of that many terms."""
+    from core import tok_ty
+    cs, both = sum_variant_cases(rng, case)
+    n = rng.choice([0, 0, 0, 1, 1, 2, 3])
+    _, dom, cod, _, _ = case.e
+    line = "fsum %s %s %s %d %s" % (both.tok_functor(), tok_ty(dom), tok_ty(cod), n,
+                                    " ".join(tok_expr(cs[i % len(cs)].e) for i in range(n)))
+    return dict(cases=cs, both=both, n=n, line=line.rstrip())
+
+
+def sum_variants(plan):
+    """The real diagrams and references of the planned variants and ONE functor for them all."""
+    from discopy import tensor
+    cs, both = plan["cases"], plan["both"]
+    if both.family == "rigid":
+        F = both.real_functor()
+    else:
+        F = tensor.Functor(ob=lambda x: x, ar=lambda f: f.array)
+    return [(c, c.real_diagram(), c.ref_layers(), F) for c in cs]
+
+
+def make_dtype_cases(seed, quick):
+    rng = random.Random((seed << 8) ^ 0xD7E9E5)
+    out = []
+    for k in range(50 if quick else 300):
+        subseed = rng.getrandbits(64)
+        sub = random.Random(subseed)
+        case = dt.dtype_case(sub, k, quick)
+        if case is not None:
+            out.append((case, subseed, sub))
+    return out
+
+
+def run_dtypes(rep, dcases, answers):
+    for (case, subseed, sub), model in zip(dcases, answers):
+        try:
+            dt.run_dtype_case(rep, sub, case, subseed, model)
+        except tl.Inexact:
+            rep.count("dtypes:skipped:inexact")
+        except Exception as exc:
+            rep.fail("c09:dtypes:raises", dt.describe(case, subseed), "%r" % (exc,))
 
 
 # ------------------------------------------------------------------ diagrams with bubbles
@@ -934,11 +1017,26 @@ def run(tier, seed, replay=None):
                 "copyto, put, reverse, swap, inner list replaced); after each round the same diagram object, "
                 "rebuilt and new diagrams (dagger, @, >>, bubbles) from the same box objects, explicit dict / "
                 "callable functors and the boxes alone, against the model and the oracle on the CURRENT data; "
-                "non-trivial there = a round after which the reference changed, >= 2 boxes")
+                "non-trivial there = a round after which the reference changed, >= 2 boxes. "
+                "PLUS (tdtypelib) DTYPES: small diagrams with daggered generators whose arrays are object-dtype "
+                "(sympy numbers with I / Python int, Fraction, float, complex mixed / sympy symbols substituted "
+                "afterwards), int8..64, uint8..64, float16/32/64, complex64/128, bool ndarrays or flat / nested lists "
+                "of mixed Python types (non-trivial = >= 2 boxes and a daggered generator); TYPED SUMS with 0-3 terms "
+                "through several constructors, composed / tensored with (empty) sums, under bubbles, tensor.Sum.eval; "
+                "BARE BOX OBJECTS of every class (swap with different images, cup, cap, spider, generator, daggered "
+                "generator; taken from the diagram or new) under functor(box), box.eval(), functor(Id() @ box), "
+                "functor(Diagram(dom, cod, [box], [0])) for the first 60 (thorough: 400) cases (non-trivial = a "
+                "box tensor with >= 4 entries)")
     rep.partial = [
-        "sums, invariance under the RIGID normal form (snake removal) and Diagram.eval "
-        "== identity-on-arrays functor are checked by the oracle on real code only (sums "
-        "are not part of the modelled loop); invariance under interchange and the monoidal "
+        "sums: the Sum branch of the functor is modelled (Model/TensorSum.lean, callSum) and compared (sum-eval); "
+        "proved: the image has the image types for any number of terms and the empty sum goes to the zero tensor "
+        "(eval_sum_typed, eval_empty_sum_typed); that the array of a sum with terms is the entrywise sum, sums "
+        "composed / tensored / under bubbles and tensor.Sum.eval are oracle only",
+        "dtypes: the model runs over Z[i]; object-dtype / symbolic / non-integral cases are oracle only "
+        "(independent numpy reference on the ideal dyadic values; object results within 1e-9 relative after "
+        "substituting the symbols, numeric dtypes exactly)",
+        "invariance under the RIGID normal form (snake removal) and Diagram.eval "
+        "== identity-on-arrays functor are checked by the oracle on real code only; invariance under interchange and the monoidal "
         "normal form is a Lean theorem (eval_invariant_interchange / _normal_form) for "
         "bubble-free diagrams and is checked by the oracle for all",
         "bubbles: modelled (Model/TensorBubble.lean, the function is a parameter) and proved "
@@ -996,8 +1094,26 @@ def run(tier, seed, replay=None):
     bcases = make_bubble_cases(seed, quick)
     hists, rots = make_histories(seed, quick)
     hlines, hwhere = history_lines(hists)
+    dcases = make_dtype_cases(seed, quick)
+    n_extra = 60 if quick else 400
+    bare = []
+    for case, _, subseed, _ in cases[:n_extra]:
+        r2 = random.Random(subseed ^ 0xBA5EB0C5)
+        reqs, blines = dt.bare_box_requests(r2, case)
+        bare.append((r2, reqs, blines, sum_plan(r2, case)))
     drv = tl.Asker()
     try:
+        didx = [i for i, (c, _, _) in enumerate(dcases) if not c.has_symbols() and c.integral()]
+        dans = [None] * len(dcases)
+        for i, a in zip(didx, drv.ask_many([dcases[i][0].line("feval") for i in didx])):
+            dans[i] = a
+        flat = drv.ask_many([ln for _, _, blines, _ in bare for ln in blines])
+        sans = drv.ask_many([plan["line"] for _, _, _, plan in bare])
+        extras, pos = [], 0
+        for (r2, reqs, blines, plan), sa in zip(bare, sans):
+            extras.append((r2, reqs, flat[pos:pos + len(blines)], plan, sa))
+            pos += len(blines)
+        extras += [None] * (len(cases) - len(extras))
         hans = drv.ask_many(hlines)
         bidx = [i for i, (c, _, _) in enumerate(bcases) if c.exact]
         bans = [None] * len(bcases)
@@ -1021,8 +1137,8 @@ def run(tier, seed, replay=None):
         rep.extra["driver_restarts"] = drv.restarts
     hyp = {"met": 0, "not_met": 0, "other": 0}
     layers_agree = 0
-    for (case, info, subseed, sub), line, model, lay, gen in zip(
-            cases, lines, answers, layers, genuine):
+    for (case, info, subseed, sub), line, model, lay, gen, extra in zip(
+            cases, lines, answers, layers, genuine, extras):
         fam = case.family
         value = [None]
 
@@ -1083,11 +1199,14 @@ def run(tier, seed, replay=None):
                          "accepted by discopy: " + real[:200], gen[:300])
         # ---- oracle
         try:
-            oracle(rep, sub, case, desc, value[0], real)
+            oracle(rep, sub, case, desc, value[0], real, extra)
         except tl.Inexact:
             rep.count("oracle.skipped:inexact")
     rep.extra["theorem_hypotheses_met"] = hyp
     rep.extra["layers_model_agreements"] = layers_agree
+    run_dtypes(rep, dcases, dans)
+    rep.extra["dtype_model_comparisons"] = rep.dist.get("dtypes:model_compared", 0)
+    rep.extra["bare_box_model_comparisons"] = rep.dist.get("bare_box:model_compared", 0)
     run_bubbles(rep, bcases, bans)
     run_histories(rep, hists, rots, hans, hwhere)
     rep.extra["history_model_comparisons"] = rep.dist.get("history:model_compared", 0)
